@@ -352,3 +352,41 @@ func verifC13MessageBraces(maxLen int) {
 
 func VerifC13MessageBraces3() { verifC13MessageBraces(3) }
 func VerifC13MessageBraces4() { verifC13MessageBraces(4) }
+
+// VerifC13TemplateTokens: the template variables of embedded Rego ($message, $result, $node,
+// $traceNode) are ordinary text everywhere else: a declarative profile that merely contains
+// them in a pattern, a list value, a message or a name still compiles and keeps them.
+func VerifC13TemplateTokens() {
+	token := []string{"$message", "$result", "$node", "$traceNode"}[v.Choice("token", 4)]
+	pos := v.Choice("position", 4)
+	exp := IriExpanderFrom(*verifExpander())
+	x := profile.Variable{Name: "x"}
+	name, msg := "v1", "m"
+	var rule profile.Rule
+	switch pos {
+	case 0:
+		rule = profile.PatternRule{AtomicStatement: verifAtomic("pattern"), Argument: "^" + token + "$"}
+	case 1:
+		rule = profile.ScalarSetRule{AtomicStatement: verifAtomic("in"), Argument: []string{token, "b"}, SetCriteria: profile.SuperSet}
+	case 2:
+		rule = profile.VerifMinCount(x, mustPath("ex.p"), 1)
+		msg = "text " + token + " text"
+	default:
+		rule = profile.VerifMinCount(x, mustPath("ex.p"), 1)
+		name = "v" + token
+	}
+	prof := profile.NewProfile()
+	prof.Name = "t"
+	prof.Prefixes = profile.ProfileContext{"ex": "http://example.org/"}
+	prof.Violation = []profile.Rule{profile.TopLevelExpression{
+		Expression:     profile.Expression{BaseStatement: profile.BaseStatement{Name: name}, Variable: &x, Value: profile.NewAnd(false, []profile.Rule{rule})},
+		Message:        profile.ParseMessageExpression(msg),
+		Level:          "violation",
+		ClassGenerator: "ex.C",
+	}}
+	_ = exp
+	unit := Generate(prof)
+	v.Reach("generated")
+	v.Assert("C13.templateTokens.kept", strings.Contains(unit.Code, token))
+	v.Assert("C13.templateTokens.compiles", v.RegoCompiles(unit.Code))
+}
